@@ -70,6 +70,19 @@ def build_case(case):
 
     extra_cells = 0
     if kind == "scratchvar" or kind == "dyn":
+        if placement == "twin_blocks":
+            # per variable two sibling blocks of the same shape: the first writes it and reads it back at once, the
+            # second reads it again at the SAME position inside its own block (beside another variable's write)
+            vs = [mk(i) for i in range(n)]
+            ws = [pt.ScratchVar(pt.TealType.uint64) for _ in range(n)]
+            cond = pt.Txn.fee() < pt.Int(1 << 40)
+            body = [v.store(pt.Int(0)) for v in vs]     # every path writes a variable before reading it
+            for i, (v, w) in enumerate(zip(vs, ws)):
+                body.append(pt.If(cond).Then(pt.Seq(v.store(M(i)), pt.Assert(v.load() == M(i)))))
+                body.append(pt.If(cond).Then(pt.Seq(w.store(pt.Int(7000 + i)), pt.Assert(v.load() == M(i)),
+                                                    pt.Assert(w.load() == pt.Int(7000 + i)))))
+            body += [pt.Assert(v.index() == pt.Int(req[i])) for i, v in enumerate(vs) if i in req]
+            return pt.Seq(*body, pt.Int(1)), 2 * n
         if placement == "main_branch":
             # everything happens in a block that is NOT the routine's entry block, and every cell is read back
             # right after it was written (adjacent store/load: the shape the slot optimiser looks for)
@@ -232,7 +245,7 @@ def check_case(case, out):
             cnt["executions"] = cnt.get("executions", 0) + 1
             if res.verdict != "APPROVE":
                 why = "program with %d cells does not approve: %s %s at line %s" % (cells, res.verdict, res.why, res.line)
-            elif case["kind"] in ("scratchvar", "dyn") and case["placement"] in ("main", "main_branch") and any(
+            elif case["kind"] in ("scratchvar", "dyn") and case["placement"] in ("main", "main_branch", "twin_blocks") and any(
                     res.scratch[sid] != 100000 + i for i, sid in req_pattern(case["req"], case["n"]).items()):
                 # "an explicitly requested slot id is the slot actually used"
                 bad_ = [(i, sid, res.scratch[sid]) for i, sid in req_pattern(case["req"], case["n"]).items() if res.scratch[sid] != 100000 + i]
@@ -282,6 +295,10 @@ def run(tier):
                         continue  # nothing to split
                     for cfg in (cfgs if tier == "thorough" or req in ("none", "low_block") else cfgs[:1] + cfgs[2:3]):
                         items.append({"n": n, "req": req, "placement": placement, "kind": kind, "cfg": cfg.to_json()})
+        if n <= 8:
+            for req in ("none", "top", "low_block"):
+                for cfg in cfgs:
+                    items.append({"n": n, "req": req, "placement": "twin_blocks", "kind": "scratchvar", "cfg": cfg.to_json()})
         if n <= 130:
             for req in ("none", "top", "both", "low_block", "mid_block", "interleaved"):
                 for kind in ("scratchvar", "dyn"):
